@@ -1,5 +1,7 @@
 import LoguruModel.Rotation.Spec
 import LoguruModel.Rotation.Stream
+import LoguruModel.Rotation.FloatParsers
+import LoguruModel.Rotation.SizeGrammar
 /-
 C19 – property theorems: size-based rotation keeps every file within the configured number of
 bytes.  `rotationSize` is the kernel regenerated from `Rotation.rotation_size` in /repo.
@@ -361,5 +363,150 @@ theorem rotation_check_precedes_write (ls : List Leaf) (s : Sink) (m : Msg)
 `Gen.groupCombinator`); this is the combinator `groupCall` – and with it `group_rotates_iff_any`,
 `group_false_fits`, the bound – is about -/
 theorem group_is_any_in_list_order : groupCombinator = .anyInOrder := by decide
+
+/-! ### round 5: `parse_size` in binary64 -/
+
+/-- `size_float_exact`: what Python really computes for a size spelling `<n> <prefix>[i]B` or `…b` with an integer
+`n` – `float(n)`, then the regenerated formula `Gen.sizeFormula` (`s * i**u / b` as the source has it) with every
+operation rounded to binary64 – IS the documented quantity `n · base^u` (bytes) resp. `n · base^u / 8` (bits),
+without any rounding, whenever `n · base^u < 2^53` (every size below 8 PiB).  For these spellings the exact-decimal
+reading `parseSize` the bound is proved about and the double the running code compares with coincide. -/
+theorem size_float_exact (n exp B : Nat) (hn : 0 < n) (hB : 0 < B) (hlt : n * B ^ exp < 2 ^ 53) :
+    F64.IsDy (sizeFormula F64.mul F64.div F64.ofInt (Dec.toF64 ⟨(n : Int), 0⟩) (B : Int) (exp : Int) 1)
+      false (n * B ^ exp) 0 0 ∧
+    F64.IsDy (sizeFormula F64.mul F64.div F64.ofInt (Dec.toF64 ⟨(n : Int), 0⟩) (B : Int) (exp : Int) 8)
+      false (n * B ^ exp) 0 3 := by
+  have hP : 0 < B ^ exp := Nat.pow_pos hB
+  have hnlt : n < 2 ^ 53 := Nat.lt_of_le_of_lt (Nat.le_mul_of_pos_right n hP) hlt
+  have hPlt : B ^ exp < 2 ^ 53 := Nat.lt_of_le_of_lt (Nat.le_mul_of_pos_left (B ^ exp) hn) hlt
+  have hs : F64.IsDy (Dec.toF64 ⟨(n : Int), 0⟩) false n 0 0 := by
+    have h1 : decide ((n : Int) < 0) = false := by simp
+    have h2 : (n : Int).natAbs = n := by simp
+    simp only [Dec.toF64, h1, h2]
+    exact F64.ofDec_nat_dy n hn hnlt
+  have hpw : ((B : Int) ^ ((exp : Int).toNat)) = ((B ^ exp : Nat) : Int) := by simp
+  have hi : F64.IsDy (F64.ofInt ((B : Int) ^ ((exp : Int).toNat))) false (B ^ exp) 0 0 := by
+    rw [hpw]; exact F64.ofNat_dy _ hP hPlt
+  have hm := F64.mul_dy _ _ false false n 0 0 (B ^ exp) 0 0 hs hi hn hP hlt (by omega) (by omega)
+  have hb : (false != false) = false := by decide
+  rw [hb] at hm
+  constructor
+  · have := F64.div_pow2_dy _ _ false false (n * B ^ exp) (0 + 0) (0 + 0) 0 0 hm F64.ofInt_one_dy
+      (Nat.mul_pos hn hP) hlt (by omega) (by omega)
+    rw [hb] at this
+    simpa [sizeFormula] using this
+  · have := F64.div_pow2_dy _ _ false false (n * B ^ exp) (0 + 0) (0 + 0) 3 0 hm F64.ofInt_eight_dy
+      (Nat.mul_pos hn hP) hlt (by omega) (by omega)
+    rw [hb] at this
+    simpa [sizeFormula] using this
+
+/-- which spellings round, by kernel evaluation of the same definitions: the documented ones and other integers are
+exact (`10 KB`, `1.5 MiB`, `8 kb`, `0.5 GB`); `0.1 B` is the double nearest to one tenth, not one tenth; `1 YB` is not
+10^24 (that power of ten is no double); yet the FLOOR – what an integer number of bytes is compared with – agrees with
+the exact quantity in all of them except the last -/
+theorem size_float_table :
+    ((parseSizeF "10 KB".toList).toOption.map (·.bind F64.floor?) = some (some 10000) ∧
+     (parseSizeF "1.5 MiB".toList).toOption.map (·.bind F64.floor?) = some (some 1572864) ∧
+     (parseSizeF "8 kb".toList).toOption.map (·.bind F64.floor?) = some (some 1000) ∧
+     (parseSizeF "0.5 GB".toList).toOption.map (·.bind F64.floor?) = some (some 500000000) ∧
+     (parseSizeF "0.1 B".toList).toOption.map (·.bind F64.toRat) = some (some (7205759403792794, 72057594037927936)) ∧
+     (parseSizeF "4.35 KB".toList).toOption.map (·.bind F64.floor?) = some (some 4350) ∧
+     (parseSizeF "1 YB".toList).toOption.map (·.bind F64.floor?) = some (some 999999999999999983222784) ∧
+     (parseSizeF "1e400 B".toList).toOption = some (some (.inf false)) ∧
+     (parseSizeF "1 d".toList).toOption = some none) ∧
+    (parseSizeF "1.2.3 MB".toList) = .error .valueError := by
+  refine ⟨by decide +kernel, rfl⟩
+
+/-- non-vacuity of `size_float_exact`: "512 MiB" -/
+example : F64.IsDy (sizeFormula F64.mul F64.div F64.ofInt (Dec.toF64 ⟨512, 0⟩) 1024 2 1) false (512 * 1024 ^ 2) 0 0 :=
+  (size_float_exact 512 2 1024 (by decide) (by decide) (by decide)).1
+
+/-- `float_limit_compares_like_its_floor`: the test `file.tell() + len(…) > size_limit` with a FLOAT limit (Python
+compares an `int` with a `float` exactly, without converting the int) is the test against the floor of the double's
+exact value – which is what the size condition of the model stores, for every finite double; an infinite limit never
+fires (`+inf`) or always fires (`−inf`). -/
+theorem float_limit_compares_like_its_floor (n : Int) (neg : Bool) (m : Nat) (e : Int) :
+    ∃ fl, F64.floor? (.fin neg m e) = some fl ∧ (F64.intGt n (.fin neg m e) = true ↔ n > fl) := by
+  simp only [F64.floor?, F64.toRat, F64.intGt]
+  by_cases hs : 0 ≤ e
+  · simp only [hs, if_true, Option.map_some]
+    exact ⟨_, rfl, by simp⟩
+  · simp only [hs, if_false, Option.map_some]
+    refine ⟨_, rfl, ?_⟩
+    have hd : (0 : Int) < ((2 ^ (-e).toNat : Nat) : Int) := by exact_mod_cast F64.two_pow_pos _
+    simp only [decide_eq_true_eq]
+    constructor
+    · intro h
+      exact Int.ediv_lt_of_lt_mul hd (by omega)
+    · intro h
+      have := Int.lt_mul_of_ediv_lt hd h
+      omega
+
+/-- restarts in the middle of a history: the bound holds for every history of records and restarts of the sink (the
+rotation functions are rebuilt, the files stay) – `file_size_bounded_partial` with `logger.remove()` / `logger.add()`
+at arbitrary points -/
+theorem file_size_bounded_with_restarts (ls : List Leaf) (S : Int) (hS : Leaf.size S ∈ ls) (ctime P : Int)
+    (ops : List SinkOp) (hops : ∀ o ∈ ops, match o with | .msg m => m.disk ≤ m.bytes | .restart => True | .foreign _ => False) :
+    ∀ f ∈ (Sink.runOps ls (Sink.init ls ctime P) ops).files, Bounded S f := by
+  have hinit : SinkInv ls S (Sink.init ls ctime P) := by
+    refine ⟨by simp [Sink.init, initStates], by simp [Sink.init], ?_⟩
+    left; simp [Sink.init, FileRec.size, sumBytes]; omega
+  have hrun : ∀ (ops : List SinkOp) (s : Sink),
+      (∀ o ∈ ops, match o with | .msg m => m.disk ≤ m.bytes | .restart => True | .foreign _ => False) →
+      SinkInv ls S s → SinkInv ls S (Sink.runOps ls s ops) := by
+    intro ops
+    induction ops with
+    | nil => intro s _ h; simpa [Sink.runOps] using h
+    | cons o ops ih =>
+      intro s ho h
+      have hstep : SinkInv ls S (Sink.step ls s o) := by
+        have h1 := ho o (by simp)
+        cases o with
+        | msg m => exact write_preserves ls S hS s m h1 h
+        | restart => exact ⟨by simp [Sink.step, Sink.restart, initStates], h.2.1, h.2.2⟩
+        | foreign n => exact absurd h1 (by simp)
+      simpa [Sink.runOps] using ih _ (fun y hy => ho y (by simp [hy])) hstep
+  obtain ⟨_, hc, hcur⟩ := hrun ops _ hops hinit
+  intro f hf
+  rcases List.mem_append.mp hf with h | h
+  · exact hc f h
+  · simp at h; subst h; exact hcur
+
+/-! ### round 5: `parse_size` over the whole grammar -/
+
+/-- `parse_size_grammar`: for EVERY spelling `<digits> <prefix>?<i>?<b|B>` – any decimal integer `n`, `u` = 0 (no
+prefix) or 1..8 (k m g t p e z y), with or without the binary marker, bytes or bits – `parse_size` denotes the
+documented quantity: `n · 1000^u` resp. `n · 1024^u` bytes, divided by 8 for bits (exact-decimal reading); and the
+double Python computes (`parseSizeF`: `float(n)`, regenerated formula in binary64) is exactly that quantity whenever
+`n · base^u < 2^53`.  (`parse_size_denotes` was a table of samples; scanner lemmas in `Rotation/SizeGrammar.lean`.) -/
+theorem parse_size_grammar (ds : Str) (hne : ds ≠ []) (hd : ds.all isDigit = true) (u : Nat) (hu : u ≤ 8)
+    (bin bits : Bool) :
+    let B : Nat := if bin then 1024 else 1000
+    parseSize (ds ++ ' ' :: unitTail u bin bits) =
+      .ok (some ⟨(digitsVal ds : Int) * ((B : Int) ^ u), if bits then 8 else 1⟩) ∧
+    (0 < digitsVal ds → digitsVal ds * B ^ u < 2 ^ 53 →
+      ∃ v, parseSizeF (ds ++ ' ' :: unitTail u bin bits) = .ok (some v) ∧
+        F64.IsDy v false (digitsVal ds * B ^ u) 0 (if bits then 3 else 0)) := by
+  intro B
+  have hscan := scanSize_grammar ds hne hd u hu bin bits
+  have hbase : (if bin then sizeBinaryBase else sizeDecimalBase) = (B : Int) := by
+    cases bin <;> simp [B] <;> decide
+  constructor
+  · unfold parseSize
+    rw [hscan]
+    simp only [Dec.scale, hbase]
+    cases bits <;> simp
+  · intro h0 hlt
+    unfold parseSizeF
+    rw [hscan]
+    simp only [hbase]
+    have hex := size_float_exact (digitsVal ds) u B h0 (by cases bin <;> simp [B]) hlt
+    cases bits
+    · exact ⟨_, rfl, hex.1⟩
+    · exact ⟨_, rfl, hex.2⟩
+
+/-- non-vacuity: "512 MiB" -/
+example : parseSize ("512".toList ++ ' ' :: unitTail 2 true false) = .ok (some ⟨512 * 1024 ^ 2, 1⟩) :=
+  (parse_size_grammar "512".toList (by decide) (by decide) 2 (by decide) true false).1
 
 end C19
